@@ -145,6 +145,35 @@ def local_identity(b, H):
         b.add(Obligation(oid=f"{mfn.key}::energy_identity", fn=mfn.key,
                          clause="Im d/dr F == Im(mu) H_mu + Im(K) H_K with H_mu, H_K the values returned by the real sensitivity kernels for exact dy1/dr = (A y)_1 (all y, complex mu and K, r, rho, g, l, G)",
                          goal=sp.Eq(sp.together(dF.im - rhs), 0, evaluate=False), hyps=[sp.Gt(rr, 0), sp.Ge(l, 2)], backends=("qqnf",), timeout=600))
+    # incompressible solid layers: the kernels take a (large) bulk modulus; in the limit K -> infinity their value must still close the identity
+    # with the code's incompressible operators (real K, so only the shear term remains)
+    if "mu" in H:
+        eps = sp.Symbol("eps_invK", positive=True)
+        for key in (("solid", "dynamic", "incompressible"), ("solid", "static", "incompressible")):
+            try:
+                A, ny, mfn = RD.extract_operator(b, key, mu=MUc)
+            except (SymExError, ExtractError) as e:
+                b.subset_exits.append(f"ODE operator {key}: {e}")
+                continue
+            dy = []
+            for i in range(6):
+                tot = Cx(0)
+                for j in range(6):
+                    tot = tot + A[i][j] * YS[j]
+                dy.append(tot)
+            c = lambda z: z.conj()
+            dF = (c(YS[0]) * YS[1] + c(YS[2]) * YS[3] * llp1) * (2 * rr) + c(YS[4]) * YS[5] * (2 * rr / (4 * T.PI * G)) \
+                + (c(dy[0]) * YS[1] + c(YS[0]) * dy[1] + (c(dy[2]) * YS[3] + c(YS[2]) * dy[3]) * llp1) * rr ** 2 \
+                + (c(dy[4]) * YS[5] + c(YS[4]) * dy[5]) * (rr ** 2 / (4 * T.PI * G))
+            hm = H["mu"].subs({Dg.re: dy[0].re, Dg.im: dy[0].im}, simultaneous=True).subs({Kc.im: 0, Kc.re: 1 / eps}, simultaneous=True)
+            num, den = sp.fraction(sp.cancel(sp.together(hm)))
+            if den.subs(eps, 0) == 0:
+                ground(b, f"{mfn.key}::energy_identity", mfn.key, "K -> infinity limit of H_mu exists", False, detail="the kernel diverges as K -> infinity")
+                continue
+            hlim = num.subs(eps, 0) / den.subs(eps, 0)
+            b.add(Obligation(oid=f"{mfn.key}::energy_identity", fn=mfn.key,
+                             clause="incompressible solid: Im d/dr F == Im(mu) lim_{K->inf} H_mu, with H_mu the real kernel's value for exact dy1/dr = (A y)_1 of the incompressible operator",
+                             goal=sp.Eq(sp.together(dF.im - MUc.im * hlim), 0, evaluate=False), hyps=[sp.Gt(rr, 0), sp.Ge(l, 2)], backends=("qqnf",), timeout=600))
     for key in (("liquid", "dynamic", "compressible"), ("liquid", "dynamic", "incompressible")):
         try:
             A, ny, mfn = RD.extract_operator(b, key, K=Kc)
@@ -307,7 +336,7 @@ def build(tier="quick", seed=0):
     b.explanation = "lemma chain over the real sensitivity kernels, the extracted ODE operators, the C02 interface conditions, find_love_cf and calc_radial_tidal_heating; exact normal forms"
     b.assume("discretisation error of the user's radial sum (rectangle / trapezoid over >= 200 slices) vanishes with refinement: not a per-call fact, not proved; the stencil clauses give its order")
     b.assume("F -> 0 at the centre for regular solutions (starting vectors ~ r^l); static-liquid interiors are excluded (y1..y4 undefined there), only their boundaries enter through the continuity lemma")
-    b.assume("incompressible solid operators: the kernels take a finite bulk modulus, the identity is proved for the compressible operators; integrator accuracy by the CyRK contract")
+    b.assume("incompressible solid operators: the identity is proved with the K -> infinity limit of the kernel (the kernels themselves take a finite, large bulk modulus: the rate of that limit is not quantified); integrator accuracy by the CyRK contract")
     b.assume("C02 interface conditions are imported as hypotheses of the continuity lemma (proved in C02 on the real interface code)")
     b.assume("doubles as reals; numpy element-wise semantics for the array arguments of calc_radial_tidal_heating")
     b.trust("tpv.pyx2py translation of derivatives/odes.pyx and love.pyx")
